@@ -334,6 +334,8 @@ def main():
              "kind_free_text": "Hypothesis 6.168 strategies/state machines and exhaustive enumerations driving the real mlr binary (built from /repo's working tree with the regenerated parser) against Python reference models, round trips, differential and metamorphic oracles; 16-way process sharding"},
             {"name": "sysfault", "path": "/verif/tools/sysfault.c", "serves_properties": [p for p in ("C17", "C19") if p in [c["property_id"] for c in checks]],
              "kind_free_text": "ptrace supervisor with a global syscall counter: list / kill-at-N / fail-at-N with errno, for fault and crash-point enumeration"},
+            {"name": "go-native-fuzz", "path": "/verif/fuzz", "serves_properties": ["C18"],
+             "kind_free_text": "Go native coverage-guided fuzzing (go test -fuzz) of library entry points of the current tree (module replaced by /repo), seven targets, thorough tier of C18 only; crashers are re-judged through the mlr command line by props/c18.py"},
         ],
         "checks": checks,
         "not_applicable": na,
